@@ -1275,7 +1275,11 @@ class NDCube(NDCubeBase):
             meta=self.meta,
             unit=new_unit
         )
-        new_cube._global_coords = self._global_coords
+        # The new cube gets its own global coords holding those of this cube, including the
+        # coordinates dropped by earlier slicing (the resampled WCS no longer reports them).
+        # Handing over this cube's own GlobalCoords object would re-link it to the new cube.
+        new_cube.global_coords._internal_coords = type(self.global_coords._internal_coords)(
+            self.global_coords._all_coords)
         # Reconstitute extra coords
         if not self.extra_coords.is_empty:
             new_cube._extra_coords = self.extra_coords.resample(bin_shape, offset=offset, ndcube=new_cube)
